@@ -39,6 +39,7 @@ def run(rep, ctx):
         borrow(rep, c11.r2_routes, ctx, "C11.R2", "C19.R5")
     except AnalysisError as e:
         rep.error("C19.R5", str(e))
+    rep.run_rule("C19.R6", "FixedArray / Array / Scalar constructors hand all of (category, value(s), unit) to the shared constructor, in order", r6_ctor_forwarding, ctx)
     rep.rule("C19.R4", "the intern table answers a category-less request only with the object of the unit's default category (shared with C07.R5: keys are made of the request's own components)")
     try:
         borrow(rep, c07.r5_interning, ctx, "C07.R5", "C19.R4")
@@ -319,3 +320,44 @@ def r3_repr(rep, ctx):
               "unit symbols %r contain a quote or backslash and do not survive repr -> eval" % bad_syms[:5])
     rep.check(not bad_cats, "C19.R3", "table:quote-free-categories", "none of the %d category names contains a quote or backslash" % len(tb.cats),
               "category names %r contain a quote or backslash and do not survive repr -> eval" % bad_cats[:5])
+
+
+# ------------------------------------------------------------------------------------------------
+def r6_ctor_forwarding(rep, ctx):
+    """Every subclass constructor that calls a base `__init__` passes the three positional arguments it received
+    ((category, value(s), unit), whatever form they are in - the rotation of the value-first forms happens in the
+    shared constructor only) in their own order, on every path."""
+    m = ctx.model
+    n = 0
+    for cname in ("FixedArray", "Array", "FractionScalar"):
+        fn = m.own_method(cname, "__init__")
+        if fn is None:
+            continue
+        res = Resolver(m, fn)
+        data = [p for p in fn.params[1:] if p != "dimension"]
+        if fn.node.args.vararg is not None:
+            continue  # forwards *args / **kwargs wholesale
+        if len(data) != 3:
+            raise AnalysisError("%s.__init__: expected (category, value(s), unit) parameters, found %s" % (cname, data))
+        P = [("param", fn.params.index(p), p) for p in data]
+        calls = [c for c in own_nodes(fn.node) if isinstance(c, ast.Call) and isinstance(c.func, ast.Attribute) and c.func.attr == "__init__"]
+        if not calls:
+            raise AnalysisError("%s.__init__ does not call a base constructor" % cname)
+        for c in calls:
+            n += 1
+            args = [res.term(a) for a in c.args]
+            if args and args[0] == ("self",):
+                args = args[1:]
+            kw = {k.arg: res.term(k.value) for k in c.keywords if k.arg}
+            base = m.lookup(c.func.value.id, "__init__") if isinstance(c.func.value, ast.Name) and c.func.value.id in m.classes else None
+            if base is not None:
+                bp = [p for p in base.params[1:]]
+                for k, v in kw.items():
+                    if k in bp and bp.index(k) >= len(args):
+                        while len(args) < bp.index(k):
+                            args.append(("const", None))
+                        args.append(v)
+            ok = len(args) == 3 and all(args[i] == P[i] for i in range(3))
+            rep.check(ok, "C19.R6", "%s.__init__:forwards:%s" % (cname, norm(ast.unparse(c))[:50]), "the base constructor receives (category, value(s), unit) unchanged",
+                      "%s.__init__ calls the base constructor with (%s): an argument is dropped or re-ordered for some call form, so that form builds a different object than the equivalent forms" % (cname, ", ".join(show(a, 40) for a in args)), node=c, fn=fn)
+    rep.floor("C19.R6", "base-constructor calls", n, 1)
